@@ -67,8 +67,8 @@ pub fn case(tape: &[u32]) -> CaseOutcome {
     for lazy in [false, true] {
         let mode = if lazy { "lazy" } else { "strict" };
         let d = |extra| detail(dsl, &source, &program.gen.globals, extra);
-        let (plain, _) = run(&file, &tree, &index, &source, &program.gen.globals, &ExecOpts { lazy, debug: None });
-        let (dbg, _) = run(&file, &tree, &index, &source, &program.gen.globals, &ExecOpts { lazy, debug: debug.clone() });
+        let (plain, _) = run_capped(&file, &tree, &index, &source, &program.gen.globals, &ExecOpts { lazy, debug: None }, model.poll_cap());
+        let (dbg, _) = run_capped(&file, &tree, &index, &source, &program.gen.globals, &ExecOpts { lazy, debug: debug.clone() }, model.poll_cap());
         report.evaluations += 2;
         for r in [&plain, &dbg] {
             if let LibRun::Panic(p) = r {
